@@ -19,7 +19,8 @@ RULE = ('shapes: plain call chain, recursion, mutual recursion, exceptions caugh
         '(consumed, abandoned, closed), methods, closures, with-block; tracepoints: span=line on every executable line, span=method and '
         'method_capture on every function, line_capture on every line; fire_count in {1,-1}; threads: one, two sequential with the same ident, '
         'two concurrent; non-trivial = at least one span/capture was opened while another invocation of the same function was live, or the '
-        'function was left by an exception, or two threads overlapped')
+        'function was left by an exception, or two threads overlapped'
+        ' ; deferred actions opened by different events of one frame (method span + line span on every line, two lines, caller + callee, method capture + line span) and a failing completion (delivery closed); a function is entered once per invocation')
 ASSUMPTIONS = ['completing a span early but inside the opening invocation is allowed; only captures are required to carry the exit value',
                'capture stages are reached through the LocationAction config (as the unit tests do) since build_trigger does not forward the stage',
                'thread idents are virtual (harness-assigned); reuse of an ident by a later thread is an explored environment choice']
